@@ -95,13 +95,23 @@ TExec ==
 CallOf(t) ==
     [NewCall(t.who, t.api) EXCEPT !.id = t.id, !.body = t.body, !.big = t.big, !.et = t.et, !.name = t.name,
                                   !.events = SetOf(t.events), !.idc = t.idc, !.agen = t.agen, !.which = t.which,
-                                  !.feat = t.feat, !.slow = t.slow, !.mode = t.mode]
+                                  !.feat = t.feat, !.slow = t.slow, !.mode = t.mode,
+                                  !.pg = IF t.who = "rt" /\ t.relrec THEN t.gen ELSE 0]
 
 TCall ==
     /\ Is("Call")
     /\ T.cid \notin DOMAIN st.calls
     /\ st' = IssueDo(st, T.cid, CallOf(T))
     /\ UNCHANGED tp /\ Adv
+
+\* the result rapid handed to the server for invocation k (recorded by a wrapper around the sandbox context): its kind and
+\* the runtime identity it carries are the ones on record when handleInvoke returned
+TInvokeMsg ==
+    /\ Is("InvokeMsg")
+    /\ T.k \in DOMAIN st.iv
+    /\ st.iv[T.k].msg = T.kind
+    /\ st.iv[T.k].rel = T.rel
+    /\ UNCHANGED <<st, tp>> /\ Adv
 
 \* the rest of a slowly sent request body has arrived
 TBodyDone ==
@@ -274,7 +284,7 @@ THook ==
 Observable ==
     \/ THook \/ TObs
     \/ TRestoreCall \/ TRestoreRet
-    \/ TBegin \/ TInitCall \/ TExec \/ TCall \/ TBodyDone \/ TNoAnswer \/ TRet \/ TInvokeCall \/ TInvokeRet
+    \/ TBegin \/ TInitCall \/ TExec \/ TCall \/ TBodyDone \/ TNoAnswer \/ TRet \/ TInvokeCall \/ TInvokeRet \/ TInvokeMsg
     \/ TProcExit \/ TExitSend \/ TExitDelivered \/ TTerminate \/ TKillCall \/ TTel
     \/ TResetCall \/ TResetRet \/ TShutdownCall \/ TShutdownRet
 
